@@ -14,7 +14,8 @@ Inductive docshape :=
 | DVecOrPath (n : Z)      (* "shape (n,) or (m,n)": a path has m >= 1 positions *)
 | DMat (r c : Z)          (* "shape (r,c)" *)
 | DRows (minrows c : Z)   (* "shape (n,c)" with n >= minrows *)
-| DGrid (c : Z).          (* "shape (c,) or (n1,n2,...,c)" *)
+| DGrid (c : Z).          (* "shape (c,) or (n1,n2,...,c)": up to 18 pixel axes (the library's own cap; the
+                             docstring gives no bound, a deeper grid is rejected with the input error) *)
 
 Definition in_doc (d : docshape) (s : shape) : bool :=
   match d, s with
@@ -23,7 +24,7 @@ Definition in_doc (d : docshape) (s : shape) : bool :=
   | DVecOrPath n, [m; a] => (1 <=? m) && (a =? n)
   | DMat r c, [a; b] => (a =? r) && (b =? c)
   | DRows k c, [a; b] => (k <=? a) && (b =? c)
-  | DGrid c, _ :: _ => last s 0 =? c
+  | DGrid c, _ :: _ => (ndim s <=? 19) && (last s 0 =? c)
   | _, _ => false
   end.
 
@@ -69,6 +70,12 @@ Definition sdoc_table : list sdoc_row := [
   mkSDoc "Sphere" "diameter" true true
 ].
 
+(* shapes with an empty leading axis of the rows whose validator has no lower bound on the number of rows
+   (position paths, mesh vertices / faces): the known gap between the code and the documented format *)
+Definition gap_row (d : doc_row) : bool :=
+  match d_shape d with DVecOrPath _ => true | DRows k _ => k =? 1 | _ => false end.
+Definition empty_rows (s : shape) : bool := match s with [m; _] => m =? 0 | _ => false end.
+
 (* ------------------------------------------------------------------ lookup *)
 Definition row_is (c a : string) (r : setter_row) : bool :=
   String.eqb (s_class r) c && String.eqb (s_attr r) a.
@@ -110,11 +117,21 @@ Definition run_validator (v : validator) (inp : vinput) : vout :=
   | _ => Crashed
   end.
 
-Definition assign_vec (r : setter_row) (inp : vinput) : vout :=
-  match run_validator (s_val r) inp with
-  | Stored None => if s_post_uses r then Crashed else Stored None
-  | x => x
+(* BaseGeo._init_position_orientation: after validation the shorter of the position / orientation paths is
+   edge-padded to the other; the orientation path has length >= 1, and np.pad(pos, .., "edge") raises ValueError on
+   an empty axis.  (The position SETTER has no such step: pad_slice_path slices the orientation path instead.) *)
+Definition init_pad (v : vout) : vout :=
+  match v with
+  | Stored (Some (m :: _, _)) => if m =? 0 then Crashed else v
+  | _ => v
   end.
+
+Definition assign_vec (r : setter_row) (inp : vinput) : vout :=
+  let v := match run_validator (s_val r) inp with
+           | Stored None => if s_post_uses r then Crashed else Stored None
+           | x => x
+           end in
+  if String.eqb (s_attr r) "position@init" then init_pad v else v.
 
 Definition assign_scalar (r : setter_row) (inp : sinput) : sout :=
   match s_val r with
@@ -155,6 +172,22 @@ Definition doc_accepts (d : doc_row) (inp : vinput) : bool :=
   | INone => d_none d
   | IArray s vals => in_doc (d_shape d) s && value_ok (d_value d) vals
   | _ => false
+  end.
+
+(* documented verdict of a scalar attribute: None if documented, any real number, not negative for sizes;
+   complex numbers and non-numbers are malformed *)
+Definition sdoc_accepts (d : sdoc_row) (inp : sinput) : bool :=
+  match inp with
+  | SNone => sd_none d
+  | SReal q => negb (sd_nonneg d && Qltb q (qz 0))
+  | _ => false
+  end.
+
+(* a float array has as many entries as its shape says; extents are not negative *)
+Definition wf_vinput (inp : vinput) : Prop :=
+  match inp with
+  | IArray s vals => Forall (fun n => 0 <= n) s /\ Z.of_nat (List.length vals) = size s
+  | _ => True
   end.
 
 Definition find_doc (c a : string) : option doc_row :=
